@@ -42,7 +42,7 @@ theorem one_executor (t0 : Nat) (evs : List Ev) : live (run (init t0) evs) ≤ 1
 (the previous one has been cancelled and has closed its channel). -/
 theorem start_only_when_none_live (t0 : Nat) (evs : List Ev) (id : Nat) (d : Digest) (sn : Snap)
     (h : Obs.spawn id d sn ∈ (run (init t0) evs).log) : sn.live = 0 :=
-  ((inv_reachable t0 evs).logOK _ h).1
+  ((inv_reachable t0 evs).logOK.1 _ h).1
 
 /-- Every goroutine the client no longer references has exited. -/
 theorem retired_are_closed (t0 : Nat) (evs : List Ev) (e : Exec)
@@ -68,7 +68,7 @@ theorem honest_state (t0 : Nat) (evs : List Ev) (r : Request) (sn : Snap)
     (∀ d p, r.state = .executing d p → ∃ e, sn.last = some e ∧ e.digest = d ∧
       (∀ x, p = .completed x → e.returned = some x) ∧
       (∀ u, p = .upd u → e.received.getLast? = some u ∧ e.received <+: e.emitted)) := by
-  have := (inv_reachable t0 evs).logOK _ h
+  have := (inv_reachable t0 evs).logOK.1 _ h
   exact ⟨this.1, this.2.1⟩
 
 /-! ## idle when told, start only when told -/
@@ -78,7 +78,7 @@ theorem honest_state (t0 : Nat) (evs : List Ev) (r : Request) (sn : Snap)
 theorem idle_when_told (t0 : Nat) (evs : List Ev) (r : Request) (sn : Snap)
     (h : Obs.sent r sn ∈ (run (init t0) evs).log) (ts : Nat)
     (ht : sn.lastReply = some (.reply (some ts) .idle)) : r.state = .idle ∧ sn.live = 0 := by
-  have := (inv_reachable t0 evs).logOK _ h
+  have := (inv_reachable t0 evs).logOK.1 _ h
   have hi := this.2.2.2.2.2.2 ⟨ts, ht⟩
   exact ⟨hi, this.1 hi⟩
 
@@ -96,7 +96,7 @@ reply with a valid timestamp that asks to execute exactly `d` (well-formed). -/
 theorem start_only_when_told (t0 : Nat) (evs : List Ev) (id : Nat) (d : Digest) (sn : Snap)
     (h : Obs.spawn id d sn ∈ (run (init t0) evs).log) :
     ∃ ts, sn.lastReply = some (.reply (some ts) (.execute (.ok d))) :=
-  ((inv_reachable t0 evs).logOK _ h).2
+  ((inv_reachable t0 evs).logOK.1 _ h).2
 
 /-! ## prefer being idle after a failure -/
 
@@ -109,7 +109,7 @@ theorem prefer_idle_after_failure (t0 : Nat) (evs : List Ev) (r : Request) (sn :
     (∀ d x, r.state = .executing d (.completed x) → x.ok = false → r.preferIdle = true) ∧
     (r.state = .idle → sn.mayThink.isSome = true → r.preferIdle = true) ∧
     (r.state = .idle → r.preferIdle = false → sn.readyChecked = true) := by
-  have := (inv_reachable t0 evs).logOK _ h
+  have := (inv_reachable t0 evs).logOK.1 _ h
   exact ⟨this.2.2.1, this.2.2.2.1, this.2.2.2.2.1⟩
 
 example : (run (init 1000) demo).log.any
@@ -126,7 +126,14 @@ example : (run (init 1000) demo).log.any
 theorem shutdown_prefer_idle (t0 : Nat) (evs : List Ev) (r : Request) (sn : Snap)
     (h : Obs.sent r sn ∈ (run (init t0) evs).log) (hc : sn.cancelled = true) :
     r.preferIdle = true :=
-  ((inv_reachable t0 evs).logOK _ h).2.2.2.2.2.1 hc
+  ((inv_reachable t0 evs).logOK.1 _ h).2.2.2.2.2.1 hc
+
+/-- Trace form: in the observable trace of any history, every request sent after
+the `cancel` entry (the moment shutdown began) has `PreferBeingIdle = true`. -/
+theorem shutdown_all_later_requests_prefer_idle (t0 : Nat) (evs : List Ev) (l1 l2 : List Obs)
+    (h : (run (init t0) evs).log = l1 ++ Obs.cancel :: l2) (r : Request) (sn : Snap)
+    (hm : Obs.sent r sn ∈ l2) : r.preferIdle = true :=
+  (inv_reachable t0 evs).logOK.2.2 l1 l2 h r sn hm
 
 /-- Cancellation is never un-observed: once shutdown began (after any prefix
 `evs` of the history) it stays on for every continuation `more`, so by
@@ -141,7 +148,7 @@ worker is executing: the may-think bound is unset or has passed. -/
 theorem shutdown_may_terminate (t0 : Nat) (evs : List Ev) (err : Bool) (sn : Snap)
     (h : Obs.ret true err sn ∈ (run (init t0) evs).log) :
     sn.mayThink = none ∨ ∃ t, sn.mayThink = some t ∧ sn.now > t :=
-  ((inv_reachable t0 evs).logOK _ h) rfl
+  ((inv_reachable t0 evs).logOK.1 _ h) rfl
 
 /-- The worker thread ends only under shutdown. -/
 theorem terminates_only_on_shutdown (t0 : Nat) (evs : List Ev)
